@@ -4,6 +4,7 @@ use std::convert::Infallible;
 
 use full_moon::{
     ast::{self, Ast},
+    node::Node,
     visitors::Visitor,
 };
 
@@ -62,7 +63,8 @@ struct AlmostSwap {
 
 impl Visitor for AlmostSwappedVisitor {
     fn visit_block(&mut self, block: &ast::Block) {
-        let mut last_swap: Option<AlmostSwap> = None;
+        // The remembered assignment, with the tokens of its variable and of its value
+        let mut last_swap: Option<(AlmostSwap, Vec<String>, Vec<String>)> = None;
 
         for stmt in block.stmts() {
             if let ast::Stmt::Assignment(assignment) = stmt {
@@ -79,10 +81,15 @@ impl Visitor for AlmostSwappedVisitor {
                         let expr_text = purge_trivia(expr).to_string().trim().to_owned();
                         let var_text = purge_trivia(var).to_string().trim().to_owned();
 
+                        // Text without trivia glues tokens together (`a and b` reads `aandb`),
+                        // so expressions are compared token by token
+                        let expr_tokens = token_texts(expr);
+                        let var_tokens = token_texts(var);
+
                         match last_swap.take() {
-                            Some(last_swap)
-                                if last_swap.names.0 == expr_text
-                                    && last_swap.names.1 == var_text =>
+                            Some((last_swap, last_var_tokens, last_expr_tokens))
+                                if last_var_tokens == expr_tokens
+                                    && last_expr_tokens == var_tokens =>
                             {
                                 self.almost_swaps.push(AlmostSwap {
                                     names: last_swap.names.to_owned(),
@@ -92,10 +99,14 @@ impl Visitor for AlmostSwappedVisitor {
 
                             // Not the second half of a swap, but it can be the first half of the next one
                             _ => {
-                                last_swap = Some(AlmostSwap {
-                                    names: (var_text, expr_text),
-                                    range: range(stmt),
-                                });
+                                last_swap = Some((
+                                    AlmostSwap {
+                                        names: (var_text, expr_text),
+                                        range: range(stmt),
+                                    },
+                                    var_tokens,
+                                    expr_tokens,
+                                ));
                             }
                         }
 
@@ -107,6 +118,12 @@ impl Visitor for AlmostSwappedVisitor {
             last_swap = None;
         }
     }
+}
+
+fn token_texts<N: Node>(node: N) -> Vec<String> {
+    node.tokens()
+        .map(|token| token.token().to_string())
+        .collect()
 }
 
 #[cfg(test)]
